@@ -115,3 +115,43 @@ pub fn capture_stdout<T>(f: impl FnOnce() -> T + std::panic::UnwindSafe) -> (Res
         (r, out)
     }
 }
+
+/// Run `f` in a forked child; it reports (status, value) through a pipe. Err(signal) if the child
+/// was killed (a fault or an abort inside `f`), Err(0) if it exited without reporting.
+pub fn fork_call(f: impl FnOnce() -> (u32, u64)) -> Result<(u32, u64), i32> {
+    unsafe {
+        let mut fds = [0i32; 2];
+        assert_eq!(libc::pipe(fds.as_mut_ptr()), 0);
+        let pid = libc::fork();
+        assert!(pid >= 0);
+        if pid == 0 {
+            libc::alarm(60);
+            let r = std::panic::catch_unwind(std::panic::AssertUnwindSafe(f)).unwrap_or((u32::MAX, 0));
+            let mut buf = [0u8; 12];
+            buf[..4].copy_from_slice(&r.0.to_le_bytes());
+            buf[4..].copy_from_slice(&r.1.to_le_bytes());
+            libc::write(fds[1], buf.as_ptr() as *const libc::c_void, 12);
+            libc::_exit(0);
+        }
+        libc::close(fds[1]);
+        let mut buf = [0u8; 12];
+        let mut got = 0usize;
+        while got < 12 {
+            let n = libc::read(fds[0], buf.as_mut_ptr().add(got) as *mut libc::c_void, 12 - got);
+            if n <= 0 {
+                break;
+            }
+            got += n as usize;
+        }
+        libc::close(fds[0]);
+        let mut status = 0i32;
+        libc::waitpid(pid, &mut status, 0);
+        if libc::WIFSIGNALED(status) {
+            return Err(libc::WTERMSIG(status));
+        }
+        if got < 12 {
+            return Err(0);
+        }
+        Ok((u32::from_le_bytes(buf[..4].try_into().unwrap()), u64::from_le_bytes(buf[4..].try_into().unwrap())))
+    }
+}
